@@ -12,7 +12,7 @@ WHY_MISSED = {
  "C10-m4": "HRP -> network mapping in the Bech32 string layer, outside the claim",
  "C13-m2": "transparent bundle merge with unequal input/output counts: bundle merges are outside the claim",
  "C13-m3": "Sapling bundle merge: outside the claim",
- "C15-m2": "multi-leaf tree recursion: only the thorough-tier 2-leaf harness reaches it",
+ "C15-m2": "multi-leaf tree recursion: outside the claim (no 2-leaf harness left symex)",
  "C15-m3": "`update_chain_tip` is SQL over the scan queue table: outside the claim",
 }
 rows = []
